@@ -146,74 +146,106 @@ def check_generators(ctx):
                               'every table is tokenized at the first table\'s attribute' % U(k)
         ctx.check('R-ORDER/count', f, 'frequency', ok, why, stores[0] if stores else f.node,
                   sample='freq[token] += 1 over all tables, rows, tokens')
-        # ---- total order + rank
-        rstores = [n for n in walk_own(f.node) if isinstance(n, ast.Assign) and isinstance(n.targets[0], ast.Subscript)
-                   and n not in stores]
-        if len(rstores) != 1:
-            raise AnalysisError('%s: rank store not found' % f.where)
-        rs = rstores[0]
-        loop = None
-        for n in walk_own(f.node):
+        # ---- total order + rank: in this function, or in the helper it returns the result of
+        rf, rview, rfreq = f, view, freq
+        rets = [n for n in walk_own(f.node) if isinstance(n, ast.Return) and isinstance(n.value, ast.Call)]
+        if rets and not [n for n in walk_own(f.node) if isinstance(n, ast.Assign) and isinstance(n.targets[0], ast.Subscript) and n not in stores]:
+            r = repo.resolve_call(f, rets[0].value)
+            if r is not None and freq is not None:
+                callee, kind, b = r
+                ps_ = [p_ for p_, a in b.items() if U(a) == freq]
+                if len(ps_) == 1:
+                    rf, rview, rfreq = callee, view_of(callee), ps_[0]
+        start = _rank_part(ctx, repo, f, rf, rview, rfreq, stores if rf is f else [])
+        starts.append(start)
+    return starts
+
+
+def _rank_part(ctx, repo, f, rf, view, freq, count_stores):
+    """ranks are assigned over sorted(freq.items()) keyed on (frequency, token); each token gets its own rank.
+    Accepts a loop with a store or a dict comprehension. -> first rank"""
+    # locate the construction
+    loop = None
+    rs = None
+    dcomp = None
+    for n in walk_own(rf.node):
+        if isinstance(n, ast.Assign) and isinstance(n.targets[0], ast.Subscript) and n not in count_stores:
+            rs = n
+    for n in ast.walk(rf.node):
+        if isinstance(n, ast.DictComp) and len(n.generators) == 1:
+            dcomp = n
+    if rs is not None:
+        for n in walk_own(rf.node):
             if isinstance(n, ast.For) and any(x is rs for x in ast.walk(n)):
                 loop = n
         if loop is None:
-            raise AnalysisError('%s: rank store is not in a loop' % f.where)
-        it = loop.iter
-        start, rvar, how = rank_start(ctx, f, view, loop)
-        elem = loop.target
-        if how == 'enumerate':
-            it = loop.iter.args[0]
-            elem = loop.target.elts[1]
-        itx = view.expand(it, loop)
-        keys, base = _sorted_chain(itx)
-        ok = False
-        why = 'ranks are assigned while iterating `%s`, which is not sorted(...) by (frequency, token)' % U(it)[:80]
-        if keys and all(k is not None for k in keys):
-            flat = []
-            for k in keys:          # outermost key is the primary one
-                flat += [i for i in k if i not in flat]
-            # items are (token, freq): index 0 = token, 1 = frequency
-            base_ok = isinstance(base, ast.Call) and call_name(base) == 'items' and freq is not None and U(base.func.value) == freq
-            ok = base_ok and set(flat) >= {0, 1} and flat[0] in (0, 1)
-            if ok and 'natural' in flat:
-                ok = True
-            why = 'sort keys %s over `%s` do not give a total order on (frequency, token)' % (keys, U(base)[:50])
-        ctx.check('R-ORDER/total', f, 'rank iteration', ok,
-                  '%s: ties between equally frequent tokens would be broken by insertion (row) order' % why, loop,
-                  sample='sorted by %s over %s.items()' % (keys, freq))
-        # rank value and key
-        key_ok = False
-        e_name = elem.id if isinstance(elem, ast.Name) else None
-        k = rs.targets[0].slice
-        if e_name and isinstance(k, ast.Subscript) and isinstance(k.value, ast.Name) and k.value.id == e_name \
-                and isinstance(k.slice, ast.Constant) and k.slice.value == 0:
-            key_ok = True
-        if isinstance(elem, ast.Tuple) and isinstance(k, ast.Name) and isinstance(elem.elts[0], ast.Name) and k.id == elem.elts[0].id:
-            key_ok = True
-        val = rs.value
-        if how == 'enumerate':
-            val_ok = isinstance(val, ast.Name) and val.id == rvar
-        else:
-            val_ok = isinstance(val, ast.Name)
-            if val_ok:
-                rvar = val.id
-                init = [d for d in view.reaching(rvar, loop) if d.node is not None and not any(x is d.node for x in ast.walk(loop))]
-                if init and all(isinstance(d.value, ast.Constant) for d in init) and len(set(d.value.value for d in init)) == 1:
-                    start = init[0].value.value
-                # advanced exactly once per iteration
-                adv = True
-                for p, hw in loop_body_paths(view, loop):
-                    if hw != 'next':
-                        continue
-                    ps = symexec(p)
-                    if ps.counts.get(rvar, 0) != 1:
-                        adv = False
-                val_ok = adv
-        ctx.check('R-ORDER/rank', f, 'rank store', key_ok and val_ok,
-                  'rank store `%s` does not give each token of the sorted sequence its own rank' % U(rs)[:80], rs,
-                  sample='%s[token] = %s (start %s, %s)' % (U(rs.targets[0].value), rvar, start, how or 'counter'))
-        starts.append(start)
-    return starts
+            raise AnalysisError('%s: rank store is not in a loop' % rf.where)
+        host = loop
+        it, target = loop.iter, loop.target
+        key_e, val_e = rs.targets[0].slice, rs.value
+    elif dcomp is not None:
+        host = view.stmt_of(dcomp)
+        it, target = dcomp.generators[0].iter, dcomp.generators[0].target
+        key_e, val_e = dcomp.key, dcomp.value
+        if dcomp.generators[0].ifs:
+            ctx.check('R-ORDER/rank', f, 'rank store', False, 'the rank comprehension filters tokens', dcomp)
+    else:
+        raise AnalysisError('%s: rank construction not found' % rf.where)
+    start, rvar, how = None, None, None
+    elem = target
+    if isinstance(it, ast.Call) and call_name(it) == 'enumerate' and isinstance(target, ast.Tuple) and len(target.elts) == 2:
+        start = 0
+        if len(it.args) > 1 and isinstance(it.args[1], ast.Constant):
+            start = it.args[1].value
+        for k_ in it.keywords:
+            if k_.arg == 'start' and isinstance(k_.value, ast.Constant):
+                start = k_.value.value
+        rvar = target.elts[0].id if isinstance(target.elts[0], ast.Name) else None
+        how = 'enumerate'
+        elem = target.elts[1]
+        it = it.args[0]
+    itx = view.expand(it, host)
+    keys, base = _sorted_chain(itx)
+    ok = False
+    why = 'ranks are assigned while iterating `%s`, which is not sorted(...) by (frequency, token)' % U(it)[:80]
+    if keys and all(k is not None for k in keys):
+        flat = []
+        for k in keys:
+            flat += [i for i in k if i not in flat]
+        base_ok = isinstance(base, ast.Call) and call_name(base) == 'items' and freq is not None and U(base.func.value) == freq
+        ok = base_ok and set(flat) >= {0, 1} and flat[0] in (0, 1)
+        why = 'sort keys %s over `%s` do not give a total order on (frequency, token)' % (keys, U(base)[:50])
+    ctx.check('R-ORDER/total', f, 'rank iteration', ok,
+              '%s: ties between equally frequent tokens would be broken by insertion (row) order' % why, host,
+              sample='sorted by %s over %s.items()' % (keys, freq))
+    # the key is the token component of the element, the value the rank
+    key_ok = False
+    if isinstance(elem, ast.Name) and isinstance(key_e, ast.Subscript) and isinstance(key_e.value, ast.Name) \
+            and key_e.value.id == elem.id and isinstance(key_e.slice, ast.Constant) and key_e.slice.value == 0:
+        key_ok = True
+    if isinstance(elem, ast.Tuple) and isinstance(key_e, ast.Name) and isinstance(elem.elts[0], ast.Name) and key_e.id == elem.elts[0].id:
+        key_ok = True
+    if how == 'enumerate':
+        val_ok = isinstance(val_e, ast.Name) and val_e.id == rvar
+    else:
+        val_ok = isinstance(val_e, ast.Name) and loop is not None
+        if val_ok:
+            rvar = val_e.id
+            init = [d for d in view.reaching(rvar, loop) if d.node is not None and not any(x is d.node for x in ast.walk(loop))]
+            if init and all(isinstance(d.value, ast.Constant) for d in init) and len(set(d.value.value for d in init)) == 1:
+                start = init[0].value.value
+            adv = True
+            for p, hw in loop_body_paths(view, loop):
+                if hw != 'next':
+                    continue
+                ps = symexec(p)
+                if ps.counts.get(rvar, 0) != 1:
+                    adv = False
+            val_ok = adv
+    ctx.check('R-ORDER/rank', f, 'rank store', key_ok and val_ok,
+              'the rank construction `%s: %s` does not give each token of the sorted sequence its own rank' % (U(key_e)[:40], U(val_e)[:40]),
+              host, sample='rank of token = %s (start %s, %s)' % (rvar, start, how or 'counter'))
+    return start
 
 
 def check_order_using(ctx, starts):
